@@ -63,29 +63,39 @@ def modelled():
 # ---------------------------------------------------------------------------------------------------
 # what runs inside the sandbox worker
 
+class HelperGone(Exception):
+    """a PRIVATE helper of the library that the direct surfaces call by name is no longer there (renamed / inlined / moved by a
+    refactoring): nothing a user relies on -- the same validators stay covered through the public entry points (EntrySurface)"""
+
+
 def _direct_table():
-    from pycfmodel.action_expander import _expand_actions
-    from pycfmodel.model.base import FunctionDict
-    from pycfmodel.model.generic import Generic, _Auxiliar
-    from pycfmodel.model.resources.generic_resource import GenericResource
-    from pycfmodel.model.resources.properties.statement import Statement
-    from pycfmodel.model.resources.properties.statement_condition import StatementCondition
-    from pycfmodel.model.resources.properties.tag import Tag
-    from pycfmodel.model.types import SemiStrictBool, validate_binary
-    import pycfmodel.model.generic as G
+    """private validators called as plain functions.  Each is looked up on its own: a name that a refactoring removed makes THAT
+    direct surface vacuous (HelperGone, counted as outside the model's domain and named in the evidence), never the whole check."""
+    import importlib
+
+    def get(path, wrap=None):
+        mod, _, attrs = path.partition(":")
+        try:
+            obj = importlib.import_module(mod)
+            for a in attrs.split("."):
+                obj = getattr(obj, a)
+        except Exception:   # noqa
+            return None
+        return wrap(obj) if wrap else obj
+    G = "pycfmodel.model.generic"
     return {
-        "not_from_numbers": getattr(G, "_not_from_numbers", None),
-        "not_from_booleans": getattr(G, "_not_from_booleans", None),
-        "validate_binary": validate_binary,
-        "SemiStrictBool": SemiStrictBool,
-        "remove_colon": StatementCondition.remove_colon,
-        "json_prepass": _Auxiliar.validate_string_property_formatted_as_json,
-        "tag_coerce": Tag.coerce_bools_to_strings,
-        "effect": Statement.allowed_values_for_effect_and_capitalized,
-        "check_type": lambda v: GenericResource.check_type(v, None),
-        "check_fn_dict": FunctionDict.check_if_valid_function,
-        "generic_casting": lambda v: Generic.casting(v) and None,
-        "expand_actions_dispatch": lambda v: _expand_actions(v) and None,
+        "not_from_numbers": get(G + ":_not_from_numbers"),
+        "not_from_booleans": get(G + ":_not_from_booleans"),
+        "validate_binary": get("pycfmodel.model.types:validate_binary"),
+        "SemiStrictBool": get("pycfmodel.model.types:SemiStrictBool"),
+        "remove_colon": get("pycfmodel.model.resources.properties.statement_condition:StatementCondition.remove_colon"),
+        "json_prepass": get(G + ":_Auxiliar.validate_string_property_formatted_as_json"),
+        "tag_coerce": get("pycfmodel.model.resources.properties.tag:Tag.coerce_bools_to_strings"),
+        "effect": get("pycfmodel.model.resources.properties.statement:Statement.allowed_values_for_effect_and_capitalized"),
+        "check_type": get("pycfmodel.model.resources.generic_resource:GenericResource.check_type", lambda f: (lambda v: f(v, None))),
+        "check_fn_dict": get("pycfmodel.model.base:FunctionDict.check_if_valid_function"),
+        "generic_casting": get(G + ":Generic.casting", lambda f: (lambda v: f(v) and None)),
+        "expand_actions_dispatch": get("pycfmodel.action_expander:_expand_actions", lambda f: (lambda v: f(v) and None)),
     }
 
 
@@ -139,7 +149,10 @@ def _worker(msg):
     if "d" not in _TABLES:
         _TABLES["d"], _TABLES["e"] = _direct_table(), _entry_table()
     if kind == "direct":
-        return resgen.to_wire(_TABLES["d"][name](v))
+        f = _TABLES["d"][name]
+        if f is None:
+            raise HelperGone(name)
+        return resgen.to_wire(f(v))
     if kind == "deep":
         v = deep_template(v)          # built inside the worker: pickling a 3000-deep value would overflow the harness' own stack
     if kind == "history":
@@ -219,11 +232,16 @@ class DirectSurface(_Slow, core.Surface):
 
     def impl(self, x):
         self.last = to_impl(sb().run(("direct", self.key, copy.deepcopy(x["v"]))))
+        self.gone = self.last[0] == "EXC" and "HelperGone" in str(self.last)
         if self.last[0] == "OK" and not self.value:
             return ("OK", None)
         return self.last
 
     def model(self, rn, x):
+        if getattr(self, "gone", False):
+            core.note(ID, f"private helper behind the direct surface {self.key!r} is no longer there (refactored away?): that surface ran "
+                          "no comparison; the validator stays covered through the public entry points")
+            return ("EXC", "EUndefined", "")
         v = resgen.to_wire(x["v"])
         arg = self.args(v) if self.args else [v]
         if self.ann:
